@@ -161,7 +161,23 @@ def clause_prop(c):
     return c.split(':', 1)[0]
 
 
-def judge(ctx, scenarios, tracefile, props=None, label='srv'):
+def confirmed(ctx, scenario, clause, run_and_validate, tries=2):
+    """A clause raised by one recording is reported only if replaying that scenario on its own raises it again
+    (same clause id) - a verdict has to be a reproducible observation of the real code, not of one unlucky schedule
+    of the harness under load.  What does not reproduce is listed in the evidence (unconfirmed_clauses) and printed
+    as UNCONFIRMED, and does not change the exit code."""
+    cid = clause.split(' ')[0]
+    for k in range(tries):
+        sc = dict(scenario); sc['id'] = 1
+        bad = run_and_validate([sc], 'confirm%d' % k)
+        if any(c.split(' ')[0] == cid for cl in bad.values() for c in cl):
+            return True
+    ctx.extra.setdefault('unconfirmed_clauses', []).append(clause[:200])
+    print('UNCONFIRMED property=%s clause=%s (not reproduced in %d replays of the scenario; not counted)' % (ctx.prop, clause[:160], tries), flush=True)
+    return False
+
+
+def judge(ctx, scenarios, tracefile, props=None, label='srv', confirm=True):
     """Validate, then report clauses that belong to ctx.prop (or props)."""
     props = props or {ctx.prop}
     n = sum(1 for _ in open(tracefile))
@@ -170,9 +186,13 @@ def judge(ctx, scenarios, tracefile, props=None, label='srv'):
     ctx.evaluations += n
     byid = {s['id']: s for s in scenarios}
     others = {}
-    mine = 0
-    percls = {}
+    percls, conf = {}, {}
     ctx.extra.setdefault('rejected_by_clause', {})
+
+    def rerun(scs, lab):
+        tr, _ = run_harness(ctx, scs, lab, shards=1)
+        b, _ = validate(ctx, tr)
+        return b
     for t, clauses in sorted(bad.items()):
         for c in clauses:
             p = clause_prop(c)
@@ -182,12 +202,15 @@ def judge(ctx, scenarios, tracefile, props=None, label='srv'):
             if p in props or any(c.startswith(x) for x in props if ':' in x):
                 cls = classify(c)
                 percls[c] = percls.get(c, 0) + 1
-                ctx.extra['rejected_by_clause'][c] = percls[c]
                 if percls[c] <= 2:      # at most two replay files per distinct clause signature
-                    ctx.report(cls, '%s: %s' % (label, c), {'kind': 'srv', 'clause': c, 'scenario': byid.get(t)})
-                elif cls not in getattr(ctx, '_known', {}):
+                    ok = (not confirm) or cls in getattr(ctx, '_known', {}) or confirmed(ctx, byid.get(t), c, rerun)
+                    conf[c] = conf.get(c, False) or ok
+                    if ok:
+                        ctx.extra['rejected_by_clause'][c] = ctx.extra['rejected_by_clause'].get(c, 0) + 1
+                        ctx.report(cls, '%s: %s' % (label, c), {'kind': 'srv', 'clause': c, 'scenario': byid.get(t)})
+                elif conf.get(c) and cls not in getattr(ctx, '_known', {}):
+                    ctx.extra['rejected_by_clause'][c] = ctx.extra['rejected_by_clause'].get(c, 0) + 1
                     ctx.violations.append((c, '(see first two of this clause)'))
-                mine += 1
             else:
                 others[c.split(' ')[0]] = others.get(c.split(' ')[0], 0) + 1
     if others:
